@@ -39,8 +39,11 @@ MUTANTS = {
    "      elif tok.type == tokenize.STRING or tok.type == fstring_middle:",
    "      elif tok.type == tokenize.STRING:"),
   ('m11_every_row_of_an_fstring_protected', 'malt/pyct/parser.py',
-   "  fstring_middle = getattr(tokenize, 'FSTRING_MIDDLE', None)\n  fully_tokenized = True\n  try:\n    for tok in tokenize.generate_tokens(io.StringIO(code_string).readline):\n",
-   "  fstring_middle = getattr(tokenize, 'FSTRING_MIDDLE', None)\n  fully_tokenized = True\n  fstart = []\n  try:\n    for tok in tokenize.generate_tokens(io.StringIO(code_string).readline):\n      if tok.type == getattr(tokenize, 'FSTRING_START', None):\n        fstart.append(tok.start[0])\n      elif tok.type == getattr(tokenize, 'FSTRING_END', None) and fstart:\n        protected_rows.update(range(fstart.pop(), tok.end[0]))\n"),
+   "  protected_rows |= string_rows\n",
+   "  protected_rows |= string_rows | fstring_rows\n"),
+  ('m11b_compensating_line_may_land_inside_an_fstring', 'malt/pyct/parser.py',
+   "        (i + 1) not in string_rows and (i + 1) not in fstring_rows):",
+   "        (i + 1) not in string_rows):"),
   ('m12_lambda_parameters_of_the_unwrapped_callable', 'malt/pyct/parser.py',
    "  code = func.__code__\n  names = code.co_varnames",
    "  code = inspect.unwrap(func).__code__\n  names = code.co_varnames"),
